@@ -775,9 +775,12 @@ def array_constants(repo: Repo, rep, P: str):
             pt = repo.lookup(k, "python_type")
             order_w = order_r = None
             if ev and ev[1] == "property" and ev[2][0] is not None:
-                for n in ast.walk(ev[2][0]):
-                    if isinstance(n, ast.GeneratorExp) and isinstance(n.elt, ast.Tuple):
-                        order_w = [norm(e).split(".")[-1] for e in n.elt.elts]
+                evn = inline.normalize(repo, ev[0], ev[2][0], aliases=True)
+                for n in ast.walk(evn):
+                    if isinstance(n, (ast.GeneratorExp, ast.ListComp)) and isinstance(n.elt, (ast.Tuple, ast.List)) and len(n.generators) == 1 \
+                            and isinstance(n.generators[0].target, ast.Name) \
+                            and all(isinstance(e, ast.Attribute) and norm(e.value) == n.generators[0].target.id for e in n.elt.elts):
+                        order_w = [e.attr for e in n.elt.elts]
             ecls = None
             if pt and pt[1] == "property" and pt[2][0] is not None:
                 for st in pt[2][0].body:
